@@ -10,6 +10,8 @@ product of the dimensions it names, all other dimensions at a base value (family
   A presence   1 package, 1 type, n = 1..3 entries, EVERY presence matrix entry x config over the 4 configurations
                (holes in any position, whole-hole entries, missing configurations) x chunk encoding {dense, off16, sparse}
                (+ compact entries for n <= 2; thorough: all n x {plain, compact, mixed} x trimmed trailing holes)
+               + entry-area layout {reversed, rotated}: the entry structures of a chunk placed out of index order (legal:
+               an offset may point anywhere in the entry area; aapt never writes it) for every matrix with n >= 2
   B kinds      every type x every ordered pair of entry encodings legal for that type (plain / compact / complex with 0-2
                items / reference, typed values) x chunk encoding x configuration set x entry flags {0, PUBLIC, WEAK, both}
   C refs       acyclic reference chains of length 1-2: source kind {plain, compact, complex item, two complex items} x
@@ -17,9 +19,9 @@ product of the dimensions it names, all other dimensions at a base value (family
                x configuration sets of source and target (quick 5 x 5, thorough 15 x 15) x chunk encoding
   D types      every non-empty subset of the 7 types x {1, 2} packages x chunk encoding x string pool encodings
                {utf8, utf16, mixed} x type-id gap
-  E pairs      13 global dimensions (packages, type set, entry presence, configuration set, staggered configurations, entry
+  E pairs      14 global dimensions (packages, type set, entry presence, configuration set, staggered configurations, entry
                kind profile, flags, chunk encoding incl. mixed per configuration, pool encodings, ResTable_config size
-               28..64, trimmed trailing holes, unused pool prefix, type-id gap): every pair of values of every pair of
+               28..64, trimmed trailing holes, unused pool prefix, type-id gap, entry-area layout): every pair of values of every pair of
                dimensions around two base vectors (thorough: every triple around the first base)
 """
 import itertools
@@ -30,7 +32,7 @@ PROPERTY = "C28"
 LEVEL = "exploration"
 RULE = ("union of five full products over a resource-table grammar (A presence matrices x chunk encodings, B entry-kind "
         "pairs per type x encodings x configs x flags, C reference chains x locations x config sets, D type subsets x "
-        "packages x pool encodings, E all pairs of 13 global dimensions); every table is serialised, parsed and queried "
+        "packages x pool encodings, E all pairs of 14 global dimensions); every table is serialised, parsed and queried "
         "for every resource id x {all configs, each stored config}; non-trivial = table with a hole, a non-dense chunk, a "
         "non-plain entry, a reference, >1 configuration or >1 package; distinct = distinct table specification")
 ASSUMPTIONS = [
@@ -123,7 +125,7 @@ def table_from_spec(spec):
             enc = t.get("enc", "dense")
             if isinstance(enc, dict):
                 enc = {_cfg(c, size): v for c, v in enc.items()}
-            types.append(G.Type(t["n"], entries, enc, bool(t.get("trim"))))
+            types.append(G.Type(t["n"], entries, enc, bool(t.get("trim")), t.get("lay", "index")))
         pkgs.append(G.Package(p["id"], p["name"], types, bool(p.get("tu8", 0)), bool(p.get("ku8", 1))))
     return G.Table(pkgs, bool(spec.get("utf8", 1)), ["unused%d" % i for i in range(spec.get("prefix", 0))])
 
@@ -193,10 +195,22 @@ def fam_a(ctx):
                     vs += [("mixed", 0), ("plain", 1), ("compact", 1)]
                 for prof, trim in vs:
                     yield ("A", n, bits, enc, prof, trim)
+                # entry-area layout (the entry structures of a chunk not in index order; same table):
+                #   n = 2: reversed (= rotated) for every matrix and encoding
+                #   n = 3: reversed for every matrix (quick: one encoding per matrix, rotating; thorough: all three),
+                #          reversed + rotated x all encodings for every matrix over the configurations {default, en}
+                if n >= 2:
+                    two_cfg = not any(bits >> (4 * i + c) & 1 for i in range(n) for c in (2, 3))
+                    lays = ["reversed"] if (n == 2 or ctx.thorough or enc == ENCS[bits % 3] or two_cfg) else []
+                    if n == 3 and (two_cfg or ctx.thorough):
+                        lays.append("rotated")
+                    for lay in lays:
+                        yield ("A", n, bits, enc, "plain", 0, lay)
 
 
 def build_a(p):
-    _f, n, bits, enc, prof, trim = p
+    _f, n, bits, enc, prof, trim = p[:6]
+    lay = p[6] if len(p) > 6 else "index"
     cells = _Cells()
     entries = []
     for i in range(n):
@@ -209,7 +223,8 @@ def build_a(p):
             kind = {"plain": "p-str", "compact": "c-str", "mixed": ("p-str", "c-str")[(i + ci) % 2]}[prof]
             v[c] = cells.entry_value(kind, c)
         entries.append({"k": "key%d" % i, "f": 0, "v": v})
-    return {"pkgs": [{"id": 0x7F, "name": "com.a", "types": [{"n": "string", "enc": enc, "trim": trim, "e": entries}]}]}
+    return {"pkgs": [{"id": 0x7F, "name": "com.a",
+                      "types": [{"n": "string", "enc": enc, "trim": trim, "lay": lay, "e": entries}]}]}
 
 
 def fam_b(ctx):
@@ -370,8 +385,9 @@ E_DIMS = [
     ("trim", [0, 1]),
     ("prefix", [0, 3]),
     ("gap", [0, 1]),
+    ("layout", ["index", "reversed", "rotated"]),
 ]
-E_BASES = [[0] * len(E_DIMS), [1, 4, 6, 3, 1, 2, 1, 2, 1, 5, 1, 1, 1]]
+E_BASES = [[0] * len(E_DIMS), [1, 4, 6, 3, 1, 2, 1, 2, 1, 5, 1, 1, 1, 1]]
 
 
 def fam_e(ctx):
@@ -404,6 +420,9 @@ def build_e(p):
     pkgs = [_grid_pkg(cells, 0x7F, "com.a", v["types"], *args, v["gap"])]
     if v["pkgs"] == 2:
         pkgs.append(_grid_pkg(cells, 0x02, "com.lib", v["types"][::-1], *args, 0, pkgs))
+    for pk in pkgs:
+        for t in pk["types"]:
+            t["lay"] = v["layout"]
     return {"pkgs": pkgs, "utf8": pool[0], "csize": v["csize"], "prefix": v["prefix"]}
 
 
@@ -484,6 +503,8 @@ def _extras(spec, ref, rid=None, wanted=False):
             ex.add("enc=" + enc)
         if t.get("trim"):
             ex.add("trim")
+        if t.get("lay", "index") != "index" and t["e"]:
+            ex.add("layout=" + t["lay"])
         if not t["e"]:
             ex.add("typegap")
         cfgs = {c for e in t["e"] if e for c in e["v"]}
@@ -503,7 +524,7 @@ def split_key(key):
     # the feature itself may contain '|' between kinds; extras are the trailing tokens from a closed vocabulary
     vocab = ("pkgs2", "pools", "csize", "prefix", "flags", "multicfg", "trim", "typegap", "holes", "wanted")
     ex = []
-    while len(parts) > 1 and (parts[-1] in vocab or parts[-1].startswith("enc=")):
+    while len(parts) > 1 and (parts[-1] in vocab or parts[-1].startswith(("enc=", "layout="))):
         ex.append(parts.pop())
     return "|".join(parts), frozenset(ex)
 
@@ -698,7 +719,10 @@ def space(ctx):
     return {
         "families": {
             "A": "1 type, n=1..3 entries, all 2^(4n)-1 presence matrices over configs %r x %r%s" % (
-                CFGS, ENCS, " x {plain, compact, mixed} x trim" if ctx.thorough else " (+compact for n<=2)"),
+                CFGS, ENCS, (" x {plain, compact, mixed} x trim; entry-area layouts reversed + rotated for every n>=2 matrix x every encoding"
+                             if ctx.thorough else
+                             " (+compact for n<=2); entry-area layout reversed for every n>=2 matrix (n=3: one encoding per matrix, "
+                             "rotating), reversed + rotated x every encoding for the n=3 matrices over {default, en}")),
             "B": {"kinds_per_type": KINDS, "x": "ordered pairs x encodings x config sets %s x flags {0,2,4,6}" % ("(all 15)" if ctx.thorough else "{default; default+en; all 4}")},
             "C": {"source": C_SRC, "target1": C_T1, "target2": C_T2, "location": C_LOC,
                   "config_sets": CFGSETS if ctx.thorough else CFGSETS[:C_NCS], "enc": ENCS},
